@@ -316,7 +316,7 @@ pub fn main() -> i32 {
         if op.in_place_inputs().is_empty() && !op.is_commutative() {
             continue;
         }
-        if en.nondet || (en.big && !big) {
+        if en.nondet || en.thr || (en.big && !big) {
             continue;
         }
         let designated: Vec<usize> = op.in_place_inputs().iter().map(|i| i as usize).collect();
